@@ -167,3 +167,63 @@ Theorem bytes_new_is_cur_new : forall B buf,
   i_new (B, length buf) (mkpmem B buf) (mkpst 0 0 0) = PDone tt (pst_of B (cur_new buf)) /\ repr buf (cur_new buf).
 Proof. exact tie_iter_new. Qed.
 Print Assumptions bytes_new_is_cur_new.
+
+(* ---- whole programs at ADDRESS level.  Proofs/Lift.v: every program built from the cursor operations,
+   locals, loops, exceptions, guards and calls (a syntax tree `bP` / `bI`, constructed for each translated
+   function by a tactic that only follows the shape of the generated term: Proofs/LiftLib.v) has an
+   address-level program `cP` / `cI` -- the same control structure with each cursor operation replaced by
+   the method translated from src/iter.rs over (base address, memory, three addresses) -- which runs in lock
+   step with it from every cursor state, at every base address (`lifting_is_sound`).  Proofs/LiftTop.v puts
+   the pieces together: Bytes::new, the translated entry point, the translated scanner loop shells of the
+   chosen backend.  The address-level run of a whole parse yields exactly the model's result; since that is
+   never a Fault, no `*p`, `p.add`, `p.sub`, pointer subtraction, from_raw_parts or K-byte vector load
+   executed anywhere in the parse leaves [B, B + length buf). ---- *)
+From HV.Proofs Require Import Lift LiftLib LiftTop.
+Theorem lifting_is_sound : forall B data,
+  (forall A p (d : bP B data A p), simP B data (cP B data d) p) /\
+  (forall L R Bk A p (d : bI B data L R Bk A p), simI B data (cI B data d) p).
+Proof. exact lift_sound. Qed.
+Print Assumptions lifting_is_sound.
+
+Theorem address_level_request : forall B W, 0 < W -> forall be cf buf rq arr, bytes_ok buf ->
+  addr_request_core B W be cf buf rq arr = request_core (env_of W be) cf buf rq arr.
+Proof. exact addr_request_core_model. Qed.
+Print Assumptions address_level_request.
+Theorem address_level_response : forall B W, 0 < W -> forall be cf buf rp arr, bytes_ok buf ->
+  addr_response_core B W be cf buf rp arr = response_core (env_of W be) cf buf rp arr.
+Proof. exact addr_response_core_model. Qed.
+Print Assumptions address_level_response.
+Theorem address_level_headers : forall B W, 0 < W -> forall be src dst, bytes_ok src ->
+  addr_parse_headers B W be src dst = parse_headers (env_of W be) src dst.
+Proof. exact addr_parse_headers_model. Qed.
+Print Assumptions address_level_headers.
+Theorem address_level_chunk : forall B dbg buf,
+  addr_parse_chunk_size B dbg buf = parse_chunk_size dbg buf.
+Proof. exact addr_parse_chunk_size_model. Qed.
+Print Assumptions address_level_chunk.
+
+Theorem address_level_never_faults : forall B W, 0 < W -> forall be buf, bytes_ok buf ->
+  (forall cf rq arr f, fst (fst (addr_request_core B W be cf buf rq arr)) <> Faulted f) /\
+  (forall cf rp arr f, fst (fst (addr_response_core B W be cf buf rp arr)) <> Faulted f) /\
+  (forall dst f, fst (fst (addr_parse_headers B W be buf dst)) <> Faulted f) /\
+  (forall dbg f, fst (addr_parse_chunk_size B dbg buf) <> Faulted f).
+Proof.
+  intros B W HW be buf Hb. pose proof (BackendsOk.env_of_ok W HW be) as HE. repeat split; intros.
+  - rewrite addr_request_core_model by assumption.
+    exact (request_no_fault _ HE EConfigUninit cf buf arr rq f Hb).
+  - rewrite addr_response_core_model by assumption.
+    exact (response_no_fault _ HE EConfigUninit cf buf arr rp f Hb).
+  - rewrite addr_parse_headers_model by assumption. apply headers_no_fault; assumption.
+  - rewrite addr_parse_chunk_size_model. apply chunk_no_fault.
+Qed.
+Print Assumptions address_level_never_faults.
+
+(* non-vacuity: the address-level program RUNS: the request of Thm/C06's example placed at address 4096,
+   AVX2 backend, two header slots *)
+Example address_level_example :
+  addr_request_core 4096 8 (BRuntime 1) config_default
+    [71;69;84;32;47;120;32;72;84;84;80;47;49;46;49;13;10;65;58;32;98;13;10;13;10]%N (request_new []) [SOld 1; SOld 2]
+  = (Complete 25,
+     mkreq (Some (Sub 0 [71;69;84]%N)) (Some (Sub 4 [47;120]%N)) (Some 1%N) [SWritten (Sub 17 [65%N]) (Sub 20 [98%N])],
+     [SWritten (Sub 17 [65%N]) (Sub 20 [98%N]); SOld 2]).
+Proof. vm_compute. reflexivity. Qed.
